@@ -1,6 +1,6 @@
 (* C14 — layout trivia and source positions.  Property theorems only. *)
 From Coq Require Import List NArith Bool String Ascii.
-From RV Require Import Loc LocProofs Lexer LexerTrivia GenLexer.
+From RV Require Import Loc LocProofs Lexer LexerTrivia LexerTrivia2 GenLexer.
 Import ListNotations.
 Local Open Scope N_scope.
 
@@ -38,8 +38,11 @@ Proof. exact later_files_do_not_matter. Qed.
    between two tokens of a file leaves the sequence of tokens that are not whitespace unchanged, except directly after
    `<` or `>`.  Proved below, for every table of keywords / symbols / suffixes: a single blank (space, tab, line feed)
    directly after an identifier, keyword, reserved word, operator symbol or string literal.
-   Missing: numeric literals as the token in front (their recognisers look ahead up to four characters), comments and
-   line splices as the inserted trivia, tokens in front of the insertion point when the file does not start with the
+   Then (the two C14_trivia theorems): any run of blanks, block comments, line comments with their line feed and line
+   splices after such a token, unless the token begins with a slash (the text of a comment directly after the
+   operator `/` is not a comment there: the two slashes open a line comment).
+   Missing: numeric literals as the token in front (their recognisers look ahead up to four characters), tokens in
+   front of the insertion point when the file does not start with the
    token (that they do not look ahead that far is not proved), and everything after the lexer (directive lines,
    macro invocations, the parser) - those layers are exercised by the metamorphic runs of the check. ---- *)
 
@@ -81,6 +84,41 @@ Example C14_trivia_example :
   at_ ("+" ++ "=1")%string <> LOk (TSym "Plus") 1%nat.
 Proof. vm_compute. repeat split. discriminate. Qed.
 
+(* any run of trivia pieces - blanks, block comments whose body does not hold the closing star-slash, line comments
+   with their line feed, line splices - after such a token that does not begin with a slash *)
+Theorem C14_trivia_after_a_token_keeps_the_rest_partial :
+  forall keywords reserved_words symbols int_suffixes float_suffixes float_is_zero utf8_ok c a' (b : string) last t ts x,
+    tok_at keywords reserved_words symbols int_suffixes float_suffixes float_is_zero utf8_ok false (String c a' ++ b) = LOk t (slen (String c a')) ->
+    solid t = true -> Ascii.eqb c "/" = false -> Trivia x ->
+    Lexes keywords reserved_words symbols int_suffixes float_suffixes float_is_zero utf8_ok (String c a' ++ b) last (t :: ts) ->
+    exists ts', Lexes keywords reserved_words symbols int_suffixes float_suffixes float_is_zero utf8_ok (String c a' ++ x ++ b) last (t :: ts') /\
+                strip ts' = strip ts.
+Proof. exact trivia_after_solid_token. Qed.
+
+Theorem C14_trivia_after_the_first_token_partial :
+  forall keywords reserved_words symbols int_suffixes float_suffixes float_is_zero utf8_ok c a' (b : string) t x spans,
+    tok_at keywords reserved_words symbols int_suffixes float_suffixes float_is_zero utf8_ok false (String c a' ++ b) = LOk t (slen (String c a')) ->
+    solid t = true -> Ascii.eqb c "/" = false -> Trivia x ->
+    lex_file keywords reserved_words symbols int_suffixes float_suffixes float_is_zero utf8_ok (String c a' ++ b) = SOk spans ->
+    exists spans', lex_file keywords reserved_words symbols int_suffixes float_suffixes float_is_zero utf8_ok (String c a' ++ x ++ b) = SOk spans' /\
+                   strip (toks spans') = strip (toks spans).
+Proof. exact trivia_after_first_token. Qed.
+
+(* non-vacuity with the real tables: a comment whose body begins with a slash, a line comment and a splice after `x`;
+   and the excluded adjacency: a comment directly after the operator `/` is not a comment *)
+Example C14_trivia_pieces_example :
+  let lex := lex_file keywords reserved_words symbols int_suffixes float_suffixes (fun _ => false) (fun _ => true) in
+  let nonws s := option_map strip (match lex s with SOk l => Some (toks l) | _ => None end) in
+  Trivia ("/*" ++ "/ c " ++ "*/") /\ Trivia (("//" ++ " c" ++ String "010" "") ++ (String "\" (String "010" ""))) /\
+  nonws "x+=1"%string = nonws ("x" ++ ("/*" ++ "/ c " ++ "*/") ++ "+=1")%string /\
+  nonws "x+=1"%string = nonws ("x" ++ (("//" ++ " c" ++ String "010" "") ++ (String "\" (String "010" ""))) ++ "+=1")%string /\
+  nonws "a/b"%string <> nonws ("a/" ++ ("/*" ++ " c " ++ "*/") ++ "b")%string.
+Proof.
+  split; [apply TrOne, PBlock; reflexivity|].
+  split; [apply TrMore; [apply PLine; reflexivity|apply TrOne, PSplice]|].
+  vm_compute. repeat split. discriminate.
+Qed.
+
 (* ---- non-vacuity ---- *)
 Example C14_example :
   let a := [105; 110; 116; 10] in           (* "int\n" *)
@@ -101,3 +139,5 @@ Print Assumptions C14_later_files_do_not_matter.
 Print Assumptions C14_token_ignores_a_following_blank_partial.
 Print Assumptions C14_blank_after_a_token_keeps_the_rest_partial.
 Print Assumptions C14_blank_after_the_first_token_partial.
+Print Assumptions C14_trivia_after_a_token_keeps_the_rest_partial.
+Print Assumptions C14_trivia_after_the_first_token_partial.
